@@ -37,13 +37,14 @@ def _build(case):
 
 def run_margins(case):
     from groupby_lib import GroupBy
+    api.set_config(case)
     encs, cols, vals, mask = _build(case)
     op = case["op"]
     nk = len(encs)
     levels = case["levels"]           # 1-based requested levels
     margins = True if sorted(levels) == list(range(1, nk + 1)) and not case.get("explicit") else [l - 1 for l in levels]
     tr = {"kind": "margins", "op": op, "keys": case["keys"], "vals": case["vals"], "sel": case["sel"], "levels": levels,
-          "cfg": {"kenc": case["kenc"], "explicit": case.get("explicit")}}
+          "cfg": {"kenc": case["kenc"], "explicit": case.get("explicit"), "T": case.get("T")}}
     try:
         gb = call(GroupBy, cols[0] if nk == 1 else cols)
         out = call(gb.size, mask=mask, margins=margins) if op == "size" else call(getattr(gb, op), vals, mask=mask, margins=margins)
@@ -67,6 +68,7 @@ def run_margins(case):
 
 def run_crosstab(case):
     from groupby_lib.groupby.core import crosstab
+    api.set_config(case)
     encs, cols, vals, mask = _build(case)
     op, nrow = case["op"], case["nrow"]
     nk = len(encs)
